@@ -417,7 +417,7 @@ class LifetimeCtx:
             perms = getattr(self.solver, "_verif_permutations", None) or []
             run.perms[self.li] = [None if p is None else np.array(p) for p in perms]
             h["perm_digests"] = [dg(p) for p in run.perms[self.li]]
-        if self.solver is not None and self.crashed["seam"][0] != "construct":
+        if self.solver is not None and self.crashed["seam"][0] != "construct" and self.eff["f"] > 0:
             run.loop["cur_rel"] = self.dir_rel
             run.loop["ckpt"] = dict(self.eff)
         dump_state(run, self.state_path)
@@ -793,7 +793,9 @@ def execute(plan: dict, root: str, resume: Run | None = None, only: int | None =
                 raise HarnessError("seam missing: MDPAX_VERIF hook did not record the semi-async update order")
             run.perms[li] = [None if p is None else np.array(p) for p in (perms or [])]
             h["perm_digests"] = [dg(p) for p in run.perms[li]]
-        if solver is not None and not (crashed and ctx.crashed and ctx.crashed["seam"][0] == "construct"):
+        if solver is not None and eff["f"] > 0 and not (crashed and ctx.crashed and ctx.crashed["seam"][0] == "construct"):
+            # (a lifetime with checkpointing off writes nothing: later lifetimes keep using the
+            #  directory - and the settings - that were in force before it)
             cur_rel = dst_rel
             ckpt = dict(eff)
         run.loop = {"cur_rel": cur_rel, "ndirs": ndirs, "ckpt": ckpt}
